@@ -20,7 +20,8 @@ pub struct Case {
     pub paths: Vec<(String, String)>,
     /// operation after the basic index was built (sub-check specific), "" = none
     pub post: String,
-    /// index layouts to request from git: "plain", "eoie", "t2".."t4" (index.threads=N), "ieot-only"
+    /// index rewrites to request from git, "layout:version": layouts "plain", "eoie", "t2".."t4" (index.threads=N),
+    /// "ieot-only"; version 4 or 2 (= v2 or v3, whatever the flags need)
     pub layouts: Vec<String>,
 }
 
@@ -415,25 +416,31 @@ pub fn check_index_file(
 }
 
 /// Let git rewrite the index in every requested layout x {v4, v2/3} and check each file.
-pub fn check_variants(root: &Path, layouts: &[String], extra_cfg: &[&str], ls_files: Option<&[&str]>, seen: &mut Seen) -> Result<usize, (String, String)> {
+/// Let git rewrite the index for every requested variant "layout:version" (version 4 or 2 = lowest sufficient of v2/v3) and
+/// check each file. Versions must alternate (git only rewrites when the requested version differs from the current one).
+pub fn check_variants(root: &Path, variants: &[String], extra_cfg: &[&str], ls_files: Option<&[&str]>, seen: &mut Seen) -> Result<usize, (String, String)> {
     let mut n = 0;
     let Some(bytes) = read_index(root) else { return Ok(0) };
     let first = check_index_file(root, &bytes, ls_files, None, "index as first written", seen)?;
     n += 1;
-    for layout in layouts {
-        for ver in ["4", "2"] {
-            let mut a: Vec<&str> = layout_args(layout);
-            a.extend(extra_cfg.iter());
-            a.extend(["update-index", "--index-version", ver]);
-            git::git(root, &a);
-            let bytes = read_index(root).unwrap_or_else(|| vkit::machinery!("index vanished"));
-            let v = u32::from_be_bytes(bytes[4..8].try_into().unwrap());
-            if (ver == "4") != (v == 4) {
-                vkit::machinery!("git did not rewrite the index as version {ver} (found {v}) in {}", root.display());
-            }
-            check_index_file(root, &bytes, ls_files, Some(&first.entries), &format!("layout {layout}, requested version {ver} (file has v{v})"), seen)?;
-            n += 1;
+    let mut cur_is_v4 = first.version == 4;
+    for spec in variants {
+        let (layout, ver) = spec.split_once(':').unwrap_or_else(|| vkit::machinery!("bad variant {spec}"));
+        if (ver == "4") == cur_is_v4 {
+            vkit::machinery!("variant list {variants:?} does not alternate versions");
         }
+        let mut a: Vec<&str> = layout_args(layout);
+        a.extend(extra_cfg.iter());
+        a.extend(["update-index", "--index-version", ver]);
+        git::git(root, &a);
+        let bytes = read_index(root).unwrap_or_else(|| vkit::machinery!("index vanished"));
+        let v = u32::from_be_bytes(bytes[4..8].try_into().unwrap());
+        if (ver == "4") != (v == 4) {
+            vkit::machinery!("git did not rewrite the index as version {ver} (found {v}) in {}", root.display());
+        }
+        cur_is_v4 = v == 4;
+        check_index_file(root, &bytes, ls_files, Some(&first.entries), &format!("layout {layout}, requested version {ver} (file has v{v})"), seen)?;
+        n += 1;
     }
     Ok(n)
 }
@@ -751,108 +758,101 @@ pub fn run(run: &'static Run) {
     run.assume("git 2.39.5 writes the index files and `git ls-files -z --stage --debug [--sparse]` lists them; the harness parser (idx.rs, written from index-format.txt / git sources) must agree with ls-files on every file or the run is a machinery error");
     run.assume("SHA-1 repositories only; fsmonitor extension not generated; tree-cache children are compared as a set ordered by name (gitoxide documents re-sorting)");
     run.assume("UNTR (untracked cache) content is compared too although gitoxide exposes it only through State::untracked() with private fields (read through a cfg(byron_gitoxide_verif) accessor); the property's mechanism list names decode::stat which only UNTR uses");
-    run.budget_secs(run.pick(36.0, 560.0));
-    // development aid only: VERIF_ONLY=<sub> runs a single sub-check (the vacuity guards then fail by design)
+    run.budget_secs(run.pick(34.0, 540.0));
+    // development aid only: VERIF_ONLY=<sub> runs a single sub-check (the vacuity guards are then skipped)
     let only = std::env::var("VERIF_ONLY").ok();
     let want = |name: &str| only.as_deref().map(|o| o == name).unwrap_or(true);
+    // one git process costs 4 ms on an idle machine but >50 ms when other checks run next to this one, so every case
+    // uses as few processes as possible: 2-4 to build, 1 ls-files, 1 per rewritten variant
+    let variants_small: Vec<String> = strs(&["t3:4", "t2:2"]);
+    let variants_entries: Vec<String> = if q { variants_small.clone() } else { strs(&["t2:4", "t4:2", "eoie:4", "t3:2", "ieot-only:4"]) };
 
     // ---- sub-check: entries ------------------------------------------------------------------------------------------
-    // treatments per worktree size (index = number of paths)
     let t12: &[&str] = &["F", "X", "L", "G", "N", "S", "V", "C123", "C23", "C12", "C13", "R"];
-    let t10: &[&str] = &["F", "X", "L", "N", "S", "V", "C123", "C23", "C13", "R"];
-    let t8: &[&str] = &["F", "X", "N", "S", "V", "C123", "C23", "R"];
     let t7: &[&str] = &["F", "X", "N", "S", "C123", "C23", "R"];
+    let t4: &[&str] = &["F", "N", "S", "C123"];
     let t2: &[&str] = &["F", "C123"];
-    let by_size: [&[&str]; 5] = if q { [t12, t12, t7, t2, t2] } else { [t12, t12, t12, t10, t8] };
+    let t1: &[&str] = &["C123"];
+    let by_size: [&[&str]; 5] = if q { [t12, t12, t2, t1, t1] } else { [t12, t12, t12, t7, t4] };
     run.rule(format!(
-        "entries: treatments by worktree size 1..4 = {:?}; layouts {}",
+        "entries: treatments by worktree size 1..4 = {:?}; variants (index.threads layout:version) first-written + {:?}",
         &by_size[1..].iter().map(|t| t.join(",")).collect::<Vec<_>>(),
-        if q { "t2,t4" } else { "eoie,t2,t3,t4,ieot-only" }
+        variants_entries
     ));
-    let layouts_entries: Vec<String> = if q { strs(&["t2", "t4"]) } else { strs(&["eoie", "t2", "t3", "t4", "ieot-only"]) };
     if want("entries") {
         run.sub_with(
             "entries",
-            vkit::Opts::default().chunk(64),
+            vkit::Opts::default().chunk(32),
             |emit| {
                 for wt in worktrees(4) {
-                    assignments(&wt, by_size[wt.len()], |paths| emit(Case { paths, post: String::new(), layouts: layouts_entries.clone() }));
+                    assignments(&wt, by_size[wt.len()], |paths| emit(Case { paths, post: String::new(), layouts: variants_entries.clone() }));
                 }
             },
             eval_entries,
         );
     }
 
-    // ---- sub-check: tree cache + resolve undo after later index edits -------------------------------------------------
-    let tree_t: &[&str] = if q { &["F", "N", "R"] } else { &["F", "X", "N", "R", "G"] };
-    let layouts_small: Vec<String> = if q { strs(&["t2"]) } else { strs(&["plain", "t2"]) };
+    // ---- sub-check: path lengths around the 0xfff name-length saturation ----------------------------------------------
     run.rule(format!(
-        "tree-cache: worktrees <= {} paths x treatments {} x post-ops (write-tree; then modify/remove each path ({}); add new path z, a/n, d/n)",
+        "long-paths: subsets of size 1..{} of paths {{a, len 4094, 4095, 4096, 4097, zz}} x treatments {} (index-info, zero stat)",
         if q { 2 } else { 3 },
-        tree_t.join(","),
-        if q { "first path only" } else { "every path" }
+        if q { "F,S for one path; F for two" } else { "F,S,C123" }
     ));
-    if want("tree-cache") {
+    if want("long-paths") {
         run.sub_with(
-            "tree-cache",
-            vkit::Opts::default().chunk(64),
+            "long-paths",
+            vkit::Opts::default().chunk(32),
             |emit| {
-                for wt in worktrees(if q { 2 } else { 3 }) {
-                    if wt.is_empty() {
-                        continue;
-                    }
-                    assignments(&wt, tree_t, |paths| {
-                        let mut posts = vec!["wt".to_string()];
-                        for (i, (p, t)) in paths.iter().enumerate() {
-                            if q && i > 0 {
-                                break;
-                            }
-                            if t != "G" {
-                                posts.push(format!("wt+mod:{p}"));
-                            }
-                            posts.push(format!("wt+rm:{p}"));
+                let names = ["a", "4094", "4095", "4096", "4097", "zz"];
+                let mut subsets = Vec::new();
+                enumerate::subsets(&names, 1, if q { 2 } else { 3 }, |s| subsets.push(s.to_vec()));
+                for s in subsets {
+                    let ts: &[&str] = if q {
+                        if s.len() == 1 {
+                            &["F", "S"]
+                        } else {
+                            &["F"]
                         }
-                        posts.push("wt+new:z".into());
-                        if !q && !wt.contains(&"a") {
-                            posts.push("wt+new:a/n".into());
-                        }
-                        posts.push("wt+new:d/n".into());
-                        for post in posts {
-                            emit(Case { paths: paths.clone(), post, layouts: layouts_small.clone() });
-                        }
+                    } else {
+                        &["F", "S", "C123"]
+                    };
+                    enumerate::seqs(ts, s.len(), s.len(), |tt| {
+                        emit(LongCase { entries: s.iter().zip(tt).map(|(n, t)| (n.to_string(), t.to_string())).collect(), layouts: variants_small.clone() })
                     });
                 }
             },
-            eval_entries,
+            eval_long,
         );
     }
 
     // ---- sub-check: untracked cache ---------------------------------------------------------------------------------
     run.rule(format!(
-        "untracked-cache: tracked worktrees <= {} paths (all F) x subsets <= {} of untracked files {{u, a/u, d/u.ign, d/e/u, n/u, n/m/u.glob}} x ignore source {{none, .gitignore, d/.gitignore, info/exclude, core.excludesFile, both}}; directories aged so ctime != mtime; `git status` fills the cache",
-        if q { 1 } else { 3 },
-        if q { 1 } else { 2 }
+        "untracked-cache: tracked worktrees <= {} paths (all F) x {} of untracked files x ignore source {}; directories aged so ctime != mtime; `git status` fills the cache",
+        if q { 1 } else { 2 },
+        if q { "subsets <= 1 of {u, d/e/u}" } else { "subsets <= 2 of {u, a/u, d/u.ign, d/e/u, n/u, n/m/u.glob}" },
+        if q { "{none, .gitignore, info/exclude + core.excludesFile}" } else { "{none, .gitignore, d/.gitignore, info/exclude, core.excludesFile, both}" }
     ));
     if want("untracked-cache") {
         run.sub_with(
             "untracked-cache",
-            vkit::Opts::default().chunk(64),
+            vkit::Opts::default().chunk(32),
             |emit| {
-                let untracked_universe = ["u", "a/u", "d/u.ign", "d/e/u", "n/u", "n/m/u.glob"];
-                for wt in worktrees(if q { 1 } else { 3 }) {
+                let untracked_universe: &[&str] = if q { &["u", "d/e/u"] } else { &["u", "a/u", "d/u.ign", "d/e/u", "n/u", "n/m/u.glob"] };
+                let ignores: &[&str] = if q { &["none", "root", "info+global"] } else { &["none", "root", "sub", "info", "global", "info+global"] };
+                for wt in worktrees(if q { 1 } else { 2 }) {
                     let mut sets: Vec<Vec<&str>> = Vec::new();
-                    enumerate::subsets(&untracked_universe, 0, if q { 1 } else { 2 }, |s| {
+                    enumerate::subsets(untracked_universe, 0, if q { 1 } else { 2 }, |s| {
                         if wt.contains(&"a") && s.contains(&"a/u") {
                             return;
                         }
                         sets.push(s.to_vec());
                     });
                     for u in sets {
-                        for ignore in ["none", "root", "sub", "info", "global", "info+global"] {
-                            if ignore == "sub" && !wt.contains(&"d/e/f") && !u.iter().any(|p| p.starts_with("d/")) {
+                        for ignore in ignores {
+                            if *ignore == "sub" && !wt.contains(&"d/e/f") && !u.iter().any(|p| p.starts_with("d/")) {
                                 continue; // d/ would not exist
                             }
-                            emit(UntrCase { tracked: strs(&wt), untracked: strs(&u), ignore: ignore.into(), layouts: layouts_small.clone() });
+                            emit(UntrCase { tracked: strs(&wt), untracked: strs(&u), ignore: ignore.to_string(), layouts: variants_small.clone() });
                         }
                     }
                 }
@@ -861,26 +861,92 @@ pub fn run(run: &'static Run) {
         );
     }
 
+    // ---- sub-check: tree cache + resolve undo after later index edits -------------------------------------------------
+    let tree_t: &[&str] = if q { &["F", "N", "R"] } else { &["F", "N", "R", "G"] };
+    run.rule(format!(
+        "tree-cache: worktrees <= {} paths x treatments {} x post-ops (write-tree; then modify / remove {}; add new path {})",
+        if q { 2 } else { 3 },
+        tree_t.join(","),
+        if q { "the first path (2-path worktrees: treatments F,R and modify only)" } else { "each path" },
+        if q { "d/n" } else { "z, a/n, d/n" }
+    ));
+    if want("tree-cache") {
+        run.sub_with(
+            "tree-cache",
+            vkit::Opts::default().chunk(32),
+            |emit| {
+                for wt in worktrees(if q { 2 } else { 3 }) {
+                    if wt.is_empty() {
+                        continue;
+                    }
+                    let ts: &[&str] = if q && wt.len() == 2 { &["F", "R"] } else { tree_t };
+                    assignments(&wt, ts, |paths| {
+                        let mut posts = Vec::new();
+                        if !(q && wt.len() == 2) {
+                            posts.push("wt".to_string());
+                        }
+                        for (i, (p, t)) in paths.iter().enumerate() {
+                            if q && i > 0 {
+                                break;
+                            }
+                            if t != "G" {
+                                posts.push(format!("wt+mod:{p}"));
+                            }
+                            if !(q && wt.len() == 2) {
+                                posts.push(format!("wt+rm:{p}"));
+                            }
+                        }
+                        if !q {
+                            posts.push("wt+new:z".into());
+                            if !wt.contains(&"a") {
+                                posts.push("wt+new:a/n".into());
+                            }
+                        }
+                        if !(q && wt.len() == 2) {
+                            posts.push("wt+new:d/n".into());
+                        }
+                        for post in posts {
+                            emit(Case { paths: paths.clone(), post, layouts: variants_small.clone() });
+                        }
+                    });
+                }
+            },
+            eval_entries,
+        );
+    }
+
     // ---- sub-check: split index (link extension) -------------------------------------------------------------------------
-    run.rule("split-index: every worktree (all F), `update-index --split-index`, then one of {nothing, modify p, remove p (each path), add z, add 0}; the split index and every sharedindex.* file are decoded (harness parser is the only oracle, ls-files shows the merged view)");
+    run.rule(format!(
+        "split-index: every worktree (all F), `update-index --split-index`, then one of {}; the split index and every sharedindex.* file are decoded (harness parser is the only oracle, ls-files shows the merged view)",
+        if q { "{nothing, modify first path, remove last path, add z}" } else { "{nothing, modify p, remove p (each path), add z, add 0}" }
+    ));
     if want("split-index") {
         run.sub_with(
             "split-index",
-            vkit::Opts::default().chunk(64),
+            vkit::Opts::default().chunk(32),
             |emit| {
                 for wt in worktrees(4) {
                     if wt.is_empty() {
                         continue;
                     }
                     let mut ops = vec![String::new()];
-                    for p in &wt {
-                        ops.push(format!("mod:{p}"));
-                        ops.push(format!("rm:{p}"));
+                    if q {
+                        ops.push(format!("mod:{}", wt[0]));
+                        if wt.len() >= 2 {
+                            ops.push(format!("rm:{}", wt[wt.len() - 1]));
+                        }
+                    } else {
+                        for p in &wt {
+                            ops.push(format!("mod:{p}"));
+                            ops.push(format!("rm:{p}"));
+                        }
+                        ops.push("new:0".into());
                     }
-                    ops.push("new:z".into());
-                    ops.push("new:0".into());
+                    if !q || wt.len() >= 3 {
+                        ops.push("new:z".into());
+                    }
                     for op in ops {
-                        emit(SplitCase { tracked: strs(&wt), op, layouts: layouts_small.clone() });
+                        emit(SplitCase { tracked: strs(&wt), op, layouts: variants_small.clone() });
                     }
                 }
             },
@@ -890,17 +956,18 @@ pub fn run(run: &'static Run) {
 
     // ---- sub-check: sparse index ------------------------------------------------------------------------------------------
     run.rule(format!(
-        "sparse-index: every worktree x treatments {} committed, `sparse-checkout set --cone --sparse-index` with cone in {{(none), a, d, d/e, a+d}}",
+        "sparse-index: worktrees with {} x treatments {} committed, `sparse-checkout set --cone --sparse-index` with cone in {{(none), a, d, d/e, a+d}}",
+        if q { ">= 3 paths" } else { ">= 1 path" },
         if q { "F" } else { "F,X" }
     ));
     if want("sparse-index") {
         run.sub_with(
             "sparse-index",
-            vkit::Opts::default().chunk(32),
+            vkit::Opts::default().chunk(16),
             |emit| {
                 let cones: [&[&str]; 5] = [&[], &["a"], &["d"], &["d/e"], &["a", "d"]];
                 for wt in worktrees(4) {
-                    if wt.is_empty() {
+                    if wt.len() < if q { 3 } else { 1 } {
                         continue;
                     }
                     let ts: &[&str] = if q { &["F"] } else { &["F", "X"] };
@@ -909,38 +976,12 @@ pub fn run(run: &'static Run) {
                             if cone.contains(&"a") && wt.contains(&"a") {
                                 continue;
                             }
-                            emit(SparseCase { paths: paths.clone(), cone: strs(cone), layouts: layouts_small.clone() });
+                            emit(SparseCase { paths: paths.clone(), cone: strs(cone), layouts: variants_small.clone() });
                         }
                     });
                 }
             },
             eval_sparse,
-        );
-    }
-
-    // ---- sub-check: path lengths around the 0xfff name-length saturation ----------------------------------------------
-    run.rule(format!(
-        "long-paths: subsets of size 1..{} of paths {{a, len 4094, 4095, 4096, 4097, zz}} x treatments {} (index-info, zero stat)",
-        if q { 2 } else { 3 },
-        if q { "F,S" } else { "F,S,V,C123" }
-    ));
-    if want("long-paths") {
-        run.sub_with(
-            "long-paths",
-            vkit::Opts::default().chunk(64),
-            |emit| {
-                let names = ["a", "4094", "4095", "4096", "4097", "zz"];
-                let ts: &[&str] = if q { &["F", "S"] } else { &["F", "S", "V", "C123"] };
-                let layouts = if q { strs(&["t2"]) } else { strs(&["plain", "t2", "t3"]) };
-                let mut subsets = Vec::new();
-                enumerate::subsets(&names, 1, if q { 2 } else { 3 }, |s| subsets.push(s.to_vec()));
-                for s in subsets {
-                    enumerate::seqs(ts, s.len(), s.len(), |tt| {
-                        emit(LongCase { entries: s.iter().zip(tt).map(|(n, t)| (n.to_string(), t.to_string())).collect(), layouts: layouts.clone() })
-                    });
-                }
-            },
-            eval_long,
         );
     }
 
@@ -962,7 +1003,8 @@ pub fn run(run: &'static Run) {
             "entry_ctime!=mtime": g(&s.entry_ctime_ne_mtime), "path_len>=0xfff": g(&s.long_path), "v4_long_strip": g(&s.v4_multibyte_strip),
         }),
     );
-    if !run.is_replay() && only.is_none() {
+    // (only meaningful when the whole enumeration ran)
+    if !run.is_replay() && only.is_none() && !run.over_budget() {
         run.require("v2, v3 and v4 files were compared", g(&s.v2) > 0 && g(&s.v3) > 0 && g(&s.v4) > 0);
         run.require("files with EOIE and a multi-block IEOT were decoded (parallel entry path)", g(&s.parallel_entry_decode) > 0);
         run.require("tree caches incl. invalidated nodes were compared", g(&s.tree) > 0 && g(&s.tree_invalid) > 0);
